@@ -7,8 +7,14 @@
 (*   1. CNormalise   constructor arguments -> the reported parameters allowed     *)
 (*   2. CE2          E^2(z) as an exact rational; 1/Ez_inverse(z)^2 = E^2(z)      *)
 (*   3. gl5 / gl10   the integral IS the documented n-point Gauss-Legendre sum of *)
-(*                   the object's own integrand (so its error is the truncation   *)
-(*                   error, by definition)                                        *)
+(*                   the exact integrand (so its error is the truncation error,   *)
+(*                   by definition): 1/E from the exact rational parameters for   *)
+(*                   the 5-point sums; for the volume the object's own dV (pinned *)
+(*                   by "dv") and, independently, DH Dm(0,z)^2/E(z) rebuilt from  *)
+(*                   the exact 1/E by nested 5-point sums.  "The documented rule" *)
+(*                   is the one esutil exposes (esutil.integrate.gauleg, C17);    *)
+(*                   the mathematically exact rule is accepted as well, and       *)
+(*                   agreement with it is demanded to C17's tolerance (1e-9).     *)
 (*   4. CCatalogue   the identities Dc = DH*I, Dm (flat / sinh / sin, Hogg's      *)
 (*                   addition formula), Da, Dl, antisymmetry, dV, V, Sigma_crit,  *)
 (*                   distmod as equations between recorded quantities             *)
@@ -31,12 +37,37 @@ CIsNone(r) == r[2] = 0
 CZero      == <<0, 1>>
 COne       == <<1, 1>>
 CRAbs(r)   == <<VAbs(r[1]), r[2]>>
-CRMin2(a, b) == IF RLe(a, b) THEN a ELSE b
-CRMax2(a, b) == IF RLe(a, b) THEN b ELSE a
+
+\* ---------------------------------------------------------------------------------
+\* overflow-aware rational arithmetic (TLC integers are 32-bit, overflow is an error):
+\* sums over the lcm of the denominators, products cross-cancelled before multiplying,
+\* comparisons by the continued-fraction (Euclid) scheme instead of cross-multiplication.
+\* Operands are normalised <<n, d>> with d > 0; results are normalised.
+CRAdd(a, b) == LET g == VGcd(a[2], b[2]) IN RNorm(a[1] * (b[2] \div g) + b[1] * (a[2] \div g), (a[2] \div g) * b[2])
+CRNeg(a)    == <<-a[1], a[2]>>
+CRSub(a, b) == CRAdd(a, CRNeg(b))
+CRMul(a, b) == LET g1 == VGcd(a[1], b[2])
+                   g2 == VGcd(b[1], a[2])
+               IN RNorm((a[1] \div g1) * (b[1] \div g2), (a[2] \div g2) * (b[2] \div g1))
+CRInv(a)    == IF a[1] < 0 THEN <<-a[2], -a[1]>> ELSE <<a[2], a[1]>>          \* a # 0
+CRDiv(a, b) == CRMul(a, CRInv(b))
+RECURSIVE CRLt(_, _)
+CRLt(a, b) ==
+    LET fa == a[1] \div a[2]                \* floors (\div floors for either sign)
+        fb == b[1] \div b[2]
+        ra == a[1] - fa * a[2]              \* 0 <= ra < a[2]
+        rb == b[1] - fb * b[2]
+    IN IF fa # fb THEN fa < fb
+       ELSE IF rb = 0 THEN FALSE
+       ELSE IF ra = 0 THEN TRUE
+       ELSE CRLt(<<b[2], rb>>, <<a[2], ra>>)   \* ra/a2 < rb/b2  <=>  b2/rb < a2/ra
+CRLe(a, b) == ~CRLt(b, a)
+CRMin2(a, b) == IF CRLe(a, b) THEN a ELSE b
+CRMax2(a, b) == IF CRLe(a, b) THEN b ELSE a
 
 \* c in km/s = 2.99792458e5 (cosmology.py _CLIGHT); H0 values are integers on the
 \* lattice so that c / H0 stays inside 32-bit arithmetic
-CCLight == <<299792458, 1000>>
+CCLight == <<149896229, 500>>      \* 299792.458, normalised
 CDefOm  == <<3, 10>>                   \* documented defaults
 CDefOl  == <<7, 10>>
 CDefH0  == <<100, 1>>
@@ -46,13 +77,13 @@ CDefH0  == <<100, 1>>
 \* args = [H0, h, ok : rational | CNone, om, ol : rational | CNone (default), flat : BOOLEAN]
 COm(a) == IF CIsNone(a.om) THEN CDefOm ELSE a.om
 COl(a) == IF CIsNone(a.ol) THEN CDefOl ELSE a.ol
-CH0(a) == IF ~CIsNone(a.h) THEN RMul(<<100, 1>>, a.h)          \* h overrides H0
+CH0(a) == IF ~CIsNone(a.h) THEN CRMul(<<100, 1>>, a.h)          \* h overrides H0
           ELSE IF CIsNone(a.H0) THEN CDefH0 ELSE a.H0
 
 CParams(a, flat, ol, ok) ==
-    [H0 |-> CH0(a), DH |-> RDiv(CCLight, CH0(a)), flat |-> flat, om |-> COm(a), ol |-> ol, ok |-> ok]
+    [H0 |-> CH0(a), DH |-> CRDiv(CCLight, CH0(a)), flat |-> flat, om |-> COm(a), ol |-> ol, ok |-> ok]
 
-CFlatOut(a) == CParams(a, TRUE, RSub(COne, COm(a)), CZero)      \* flat forces ok = 0, ol = 1 - om
+CFlatOut(a) == CParams(a, TRUE, CRSub(COne, COm(a)), CZero)      \* flat forces ok = 0, ol = 1 - om
 CCurvOut(a) == CParams(a, FALSE, COl(a), IF CIsNone(a.ok) THEN CZero ELSE a.ok)
 
 COkZero(a) == CIsNone(a.ok) \/ a.ok[1] = 0
@@ -63,15 +94,15 @@ CNormalise(a) ==
     ELSE IF ~a.flat /\ ~COkZero(a) THEN <<CCurvOut(a)>>         \* the curved cosmology that was asked for
     ELSE <<CFlatOut(a), CCurvOut(a)>>   \* statement silent: flat=True with omega_k # 0; flat=False without curvature
 
-CNormInv(p) == p.flat => (p.ok = CZero /\ p.ol = RSub(COne, p.om))
+CNormInv(p) == p.flat => (p.ok = CZero /\ p.ol = CRSub(COne, p.om))
 
 \* ---------------------------------------------------------------------------------
 \* 2. the integrand, exactly
-CCube(u) == RMul(u, RMul(u, u))
-CE2Terms(p, z) == LET u == RAdd(COne, z) IN <<RMul(p.om, CCube(u)), RMul(p.ok, RMul(u, u)), p.ol>>
-CE2(p, z)    == LET t == CE2Terms(p, z) IN RAdd(RAdd(t[1], t[2]), t[3])
+CCube(u) == CRMul(u, CRMul(u, u))
+CE2Terms(p, z) == LET u == CRAdd(COne, z) IN <<CRMul(p.om, CCube(u)), CRMul(p.ok, CRMul(u, u)), p.ol>>
+CE2(p, z)    == LET t == CE2Terms(p, z) IN CRAdd(CRAdd(t[1], t[2]), t[3])
 \* operand scale of that sum (rounding is relative to it, not to a cancelled result)
-CE2Scale(p, z) == LET t == CE2Terms(p, z) IN RAdd(RAdd(CRAbs(t[1]), CRAbs(t[2])), CRAbs(t[3]))
+CE2Scale(p, z) == LET t == CE2Terms(p, z) IN CRAdd(CRAdd(CRAbs(t[1]), CRAbs(t[2])), CRAbs(t[3]))
 
 \* min of E^2 over 0 <= z <= zhi: a cubic f(u) = om u^3 + ok u^2 + ol in u = 1+z with f'(u) = u (3 om u + 2 ok);
 \* at the stationary point us = -2 ok / (3 om) its value is ol + 4 ok^3 / (27 om^2)
@@ -79,24 +110,24 @@ CMinE2(p, zhi) ==
     LET e0 == CE2(p, CZero)  e1 == CE2(p, zhi)
         m  == CRMin2(e0, e1)
     IN IF p.om[1] > 0 /\ p.ok[1] < 0
-       THEN LET zs == RSub(RDiv(RMul(<<-2, 1>>, p.ok), RMul(<<3, 1>>, p.om)), COne)
-                es == RAdd(p.ol, RDiv(RMul(<<4, 1>>, CCube(p.ok)), RMul(<<27, 1>>, RMul(p.om, p.om))))
-            IN IF RLt(CZero, zs) /\ RLt(zs, zhi) THEN CRMin2(m, es) ELSE m
+       THEN LET zs == CRSub(CRDiv(CRMul(<<-2, 1>>, p.ok), CRMul(<<3, 1>>, p.om)), COne)
+                es == CRAdd(p.ol, CRDiv(CRMul(<<4, 1>>, CCube(p.ok)), CRMul(<<27, 1>>, CRMul(p.om, p.om))))
+            IN IF CRLt(CZero, zs) /\ CRLt(zs, zhi) THEN CRMin2(m, es) ELSE m
        ELSE m
 \* the definitions exist on [0, zhi] only where E^2 > 0 (no bounce); nothing is demanded elsewhere
-CPhysical(p, zhi) == RLt(CZero, CMinE2(p, zhi))
+CPhysical(p, zhi) == CRLt(CZero, CMinE2(p, zhi))
 
 \* Dl(0, b) > 0, so that the distance modulus has a real value: always when not closed; in a closed
 \* universe as long as sqrt|ok| int_0^b dz/E < pi (sin still positive), for which
-\* |ok| b^2 / min E^2 < 9.87 < pi^2 is sufficient (int dz/E <= b / sqrt(min E^2))
+\* |ok| b^2 / min E^2 < 39/4 < pi^2 = 9.8696.. is sufficient (int dz/E <= b / sqrt(min E^2))
 CDlPositive(p, b) ==
-    p.flat \/ p.ok[1] >= 0 \/ RLt(RMul(CRAbs(p.ok), RMul(b, b)), RMul(<<987, 100>>, CMinE2(p, b)))
+    p.flat \/ p.ok[1] >= 0 \/ CRLt(CRMul(CRAbs(p.ok), CRMul(b, b)), CRMul(<<39, 4>>, CMinE2(p, b)))
 
 \* "concordance-like": where the statement quantifies the truncation error (1e-6 at z<=1, 1e-3 at z<=5)
 CConcordance(p) ==
-    /\ RLe(<<1, 10>>, p.om) /\ RLe(p.om, <<1, 2>>)
-    /\ RLe(<<-1, 10>>, p.ok) /\ RLe(p.ok, <<1, 10>>)
-    /\ RLe(<<1, 2>>, p.ol) /\ RLe(p.ol, COne)
+    /\ CRLe(<<1, 10>>, p.om) /\ CRLe(p.om, <<1, 2>>)
+    /\ CRLe(<<-1, 10>>, p.ok) /\ CRLe(p.ok, <<1, 10>>)
+    /\ CRLe(<<1, 2>>, p.ol) /\ CRLe(p.ol, COne)
 
 \* ---------------------------------------------------------------------------------
 \* 5. Einstein-de Sitter anchors: om = 1 flat, 1+z a rational square:
@@ -104,9 +135,9 @@ CConcordance(p) ==
 CISqrt(n)    == CHOOSE s \in 0..n : s * s <= n /\ (s + 1) * (s + 1) > n
 CIsSquare(n) == CISqrt(n) * CISqrt(n) = n
 CEds(p, a, b) ==
-    LET u == RAdd(COne, b) IN
-    IF p.flat /\ p.om = COne /\ a = CZero /\ b[1] > 0 /\ RLe(b, <<3, 1>>) /\ CIsSquare(u[1]) /\ CIsSquare(u[2])
-    THEN RSub(<<2, 1>>, RNorm(2 * CISqrt(u[2]), CISqrt(u[1])))
+    LET u == CRAdd(COne, b) IN
+    IF p.flat /\ p.om = COne /\ a = CZero /\ b[1] > 0 /\ CRLe(b, <<3, 1>>) /\ CIsSquare(u[1]) /\ CIsSquare(u[2])
+    THEN CRSub(<<2, 1>>, RNorm(2 * CISqrt(u[2]), CISqrt(u[1])))
     ELSE CNone
 
 \* exact rationals the evaluator takes from the spec (leaves <<"d", name>>)
@@ -119,7 +150,11 @@ CDerived(p, a, b) ==
 \*   <<"d", x>>      exact rational of CDerived          <<"n", p, q>>  the rational p/q
 \*   <<"dec", s>>    decimal literal                     <<"pi">>
 \*   <<"q1", f, x>>  obj.f(x)      <<"q2", f, x, y>>  obj.f(x, y)      (arguments are converted to float)
-\*   <<"gl", n, f, x, y>>   sum_i w_i ((y-x)/2) obj.f(x_i (y-x)/2 + (x+y)/2)  over the n-point Gauss-Legendre rule
+\*   <<"p", x>>      exact rational reported parameter of the lattice: "om" "ol" "ok" "DH"
+\*   <<"gl", n, rule, var, body, x, y>>   sum_i w_i ((y-x)/2) body[var := x_i (y-x)/2 + (x+y)/2]  (mapping in binary64, as documented)
+\*                   over the n-point Gauss-Legendre rule; rule "esutil": the public esutil.integrate.gauleg(-1, 1, n)
+\*                   (the rule property C17 decides), rule "exact": an independently computed rule validated by exact moments
+\*   <<"x", var>>    the bound quadrature node (a binary64 number, hence an exact rational)
 \*   add sub mul div neg sq sqrt abs max sinh sin log10 : exact (or >= 40 digits) real arithmetic
 XA == <<"v", "a">>
 XB == <<"v", "b">>
@@ -139,6 +174,19 @@ XSqrt(x)   == <<"sqrt", x>>
 XAbs(x)    == <<"abs", x>>
 XMax(x, y) == <<"max", x, y>>
 XDefaultScale == <<"maxabs">>                  \* max(|lhs|, |rhs|)
+XP(n)      == <<"p", n>>
+XVar(v)    == <<"x", v>>
+XGL(n, rule, var, body, lo, hi) == <<"gl", n, rule, var, body, lo, hi>>
+\* the exact integrand 1/E(z) = (om (1+z)^3 + ok (1+z)^2 + ol)^(-1/2) as an expression of the reported (lattice) parameters
+XU(z)      == XAdd(X1, z)
+XCubeT(u)  == XMul(u, XSq(u))
+XE2T(z)    == XAdd(XAdd(XMul(XP("om"), XCubeT(XU(z))), XMul(XP("ok"), XSq(XU(z)))), XP("ol"))
+XEzX(z)    == XDiv(X1, XSqrt(XE2T(z)))
+\* rounding of the float evaluation of E^2 is relative to its operand scale: amplification S / E^2 >= 1
+XAmp(z)    == XDiv(XAdd(XAdd(XMul(XAbs(XP("om")), XCubeT(XU(z))), XMul(XAbs(XP("ok")), XSq(XU(z)))), XAbs(XP("ol"))), XE2T(z))
+XIx(rule, var, lo, hi) == XGL(5, rule, var, XEzX(XVar(var)), lo, hi)
+XIxScale(var, lo, hi)  == XGL(5, "exact", var, XMul(XAmp(XVar(var)), XEzX(XVar(var))), lo, hi)
+XOwn(n, rule, f, lo, hi) == XGL(n, rule, "x", XQ1(f, XVar("x")), lo, hi)      \* the object's own f as integrand
 
 \* 4 pi G / c^2 in pc^2 / Msun / Mpc as documented in cosmolib.h; physical constants
 \* differ by a few 1e-4 between compilations, hence the ppb tolerance below
@@ -156,14 +204,26 @@ XCurvArg(k) == XDiv(XMul(XSqrt(k), XDc(XA, XB)), XDH)           \* sqrt|ok| Dc /
 \* Hogg (1999) eq. 16-17 and the distance-addition formula below eq. 19
 XHoggTerm(d1, d2) == XMul(d1, XSqrt(XAdd(X1, XDiv(XMul(XOK, XSq(d2)), XSq(XDH)))))
 
-CIdent(name, entry, rel, unit, lhs, rhs, scale) ==
-    [name |-> name, entry |-> entry, rel |-> rel, unit |-> unit, lhs |-> lhs, rhs |-> rhs, scale |-> scale]
+\* alt: name of an identity whose satisfaction (at the same tolerance) is accepted instead ("" = none)
+CIdentA(name, entry, rel, unit, lhs, rhs, scale, alt) ==
+    [name |-> name, entry |-> entry, rel |-> rel, unit |-> unit, lhs |-> lhs, rhs |-> rhs, scale |-> scale, alt |-> alt]
+CIdent(name, entry, rel, unit, lhs, rhs, scale) == CIdentA(name, entry, rel, unit, lhs, rhs, scale, "")
+
+X4Pi == XMul(<<"n", 4, 1>>, <<"pi">>)
+\* the volume integrand from the exact 1/E alone: dV(y) = DH Dm(0,y)^2 / E(y), Dm by the curvature map of DH int_0^y dz/E (5-point sum)
+XDcX(rule, y)     == XMul(XP("DH"), XIx(rule, "x", X0, y))
+XDmXFlat(rule, y) == XDcX(rule, y)
+XDmXCurv(rule, y, k, fn) == XMul(XDiv(XP("DH"), XSqrt(k)), <<fn, XMul(XSqrt(k), XIx(rule, "x", X0, y))>>)
+XVx(dm(_)) == XMul(X4Pi, XGL(10, "esutil", "y", XMul(XMul(XP("DH"), XSq(dm(XVar("y")))), XEzX(XVar("y"))), XA, XB))
 
 CCatalogue == <<
   CIdent("ezinv_a", "Ez_inverse", "eq", "ulp", XDiv(X1, XSq(XQ1("Ez_inverse", XA))), <<"d", "E2a">>, <<"d", "Sa">>),
   CIdent("ezinv_b", "Ez_inverse", "eq", "ulp", XDiv(X1, XSq(XQ1("Ez_inverse", XB))), <<"d", "E2b">>, <<"d", "Sb">>),
-  CIdent("gl5", "Ezinv_integral", "eq", "ulp", XI(XA, XB), <<"gl", 5, "Ez_inverse", XA, XB>>, XDefaultScale),
-  CIdent("gl5_coarse", "Ezinv_integral", "eq", "ppb", XI(XA, XB), <<"gl", 5, "Ez_inverse", XA, XB>>, XDefaultScale),
+  \* the integral IS the documented 5-point sum of the exact integrand: to rounding with the rule esutil documents
+  \* (or with the mathematically exact rule), and to C17's tolerance (1e-9) with the mathematically exact rule
+  CIdentA("gl5", "Ezinv_integral", "eq", "ulp", XI(XA, XB), XIx("esutil", "x", XA, XB), XIxScale("x", XA, XB), "gl5_alt"),
+  CIdent("gl5_alt", "Ezinv_integral", "eq", "ulp", XI(XA, XB), XIx("exact", "x", XA, XB), XIxScale("x", XA, XB)),
+  CIdent("gl5_coarse", "Ezinv_integral", "eq", "ppb", XI(XA, XB), XIx("exact", "x", XA, XB), XDefaultScale),
   CIdent("dc", "Dc", "eq", "ulp", XDc(XA, XB), XMul(XDH, XI(XA, XB)), XDefaultScale),
   CIdent("dm_flat", "Dm", "eq", "ulp", XDm(XA, XB), XDc(XA, XB), XDefaultScale),
   CIdent("dm_open_gt_dc", "Dm", "gt", "ulp", XDm(XA, XB), XDc(XA, XB), XDefaultScale),
@@ -179,8 +239,14 @@ CCatalogue == <<
   CIdent("antisym", "Dc", "eq", "ulp", XDc(XA, XB), XNeg(XDc(XB, XA)), XDefaultScale),
   CIdent("dv", "dV", "eq", "ulp", XQ1("dV", XB),
          XMul(XMul(XDH, XSq(XAdd(X1, XB))), XMul(XSq(XDa(X0, XB)), XQ1("Ez_inverse", XB))), XDefaultScale),
-  CIdent("gl10", "V", "eq", "ulp", XQ2("V", XA, XB), XMul(XMul(<<"n", 4, 1>>, <<"pi">>), <<"gl", 10, "dV", XA, XB>>), XDefaultScale),
-  CIdent("gl10_coarse", "V", "eq", "ppb", XQ2("V", XA, XB), XMul(XMul(<<"n", 4, 1>>, <<"pi">>), <<"gl", 10, "dV", XA, XB>>), XDefaultScale),
+  \* V = 4 pi x the documented 10-point sum of the object's own volume element (dV itself is pinned by "dv") ...
+  CIdentA("gl10", "V", "eq", "ulp", XQ2("V", XA, XB), XMul(X4Pi, XOwn(10, "esutil", "dV", XA, XB)), XDefaultScale, "gl10_alt"),
+  CIdent("gl10_alt", "V", "eq", "ulp", XQ2("V", XA, XB), XMul(X4Pi, XOwn(10, "exact", "dV", XA, XB)), XDefaultScale),
+  CIdent("gl10_coarse", "V", "eq", "ppb", XQ2("V", XA, XB), XMul(X4Pi, XOwn(10, "exact", "dV", XA, XB)), XDefaultScale),
+  \* ... and of the volume element built from the exact 1/E alone (nested 5-point sums), per curvature class
+  CIdent("gl10x_flat", "V", "eq", "ppb", XQ2("V", XA, XB), XVx(LAMBDA y : XDmXFlat("esutil", y)), XDefaultScale),
+  CIdent("gl10x_open", "V", "eq", "ppb", XQ2("V", XA, XB), XVx(LAMBDA y : XDmXCurv("esutil", y, XP("ok"), "sinh")), XDefaultScale),
+  CIdent("gl10x_closed", "V", "eq", "ppb", XQ2("V", XA, XB), XVx(LAMBDA y : XDmXCurv("esutil", y, XNeg(XP("ok")), "sin")), XDefaultScale),
   CIdent("scinv", "sigmacritinv", "eq", "ppb", XSc(XA, XB),
          XMul(XDiv(XMul(XDa(XA, XB), XDa(X0, XA)), XDa(X0, XB)), XK), XDefaultScale),
   CIdent("scinv_form", "sigmacritinv", "eq", "ulp",
@@ -198,14 +264,14 @@ CCatalogue == <<
 \* products of k operations get ~2k ulp; the n-point sum 4n ulp.
 CNA == -1
 CTol(name, p, a, b) ==
-    LET le   == RLe(a, b)
-        lt   == RLt(a, b)
+    LET le   == CRLe(a, b)
+        lt   == CRLt(a, b)
         phys == CPhysical(p, CRMax2(a, b))
         fwd  == le /\ phys                     \* 0 <= zmin <= zmax <= 5 on a physical cosmology
         when(c, t) == IF c THEN t ELSE CNA
-    IN CASE name = "ezinv_a"  -> when(RLt(CZero, CE2(p, a)), 16)
-         [] name = "ezinv_b"  -> when(RLt(CZero, CE2(p, b)), 16)
-         [] name = "gl5"      -> when(fwd, 20)
+    IN CASE name = "ezinv_a"  -> when(CRLt(CZero, CE2(p, a)), 16)
+         [] name = "ezinv_b"  -> when(CRLt(CZero, CE2(p, b)), 16)
+         [] name = "gl5"      -> when(fwd, 24)
          [] name = "gl5_coarse" -> when(fwd, 1)
          [] name = "dc"       -> when(fwd, 4)
          [] name = "dm_flat"  -> when(fwd /\ p.flat, 4)
@@ -213,21 +279,30 @@ CTol(name, p, a, b) ==
          [] name = "dm_closed_lt_dc" -> when(fwd /\ lt /\ ~p.flat /\ p.ok[1] < 0, 0)
          [] name = "dm_sinh"  -> when(fwd /\ ~p.flat /\ p.ok[1] > 0, 32)
          [] name = "dm_sin"   -> when(fwd /\ ~p.flat /\ p.ok[1] < 0, 32)
-         [] name = "hogg_add" -> when(fwd /\ CConcordance(p), IF RLe(b, COne) THEN 3000 ELSE 3000000)
+         \* three distances, each within 1.5 x (1e-6 | 1e-3) of a triple that satisfies the formula exactly: 2 x 1.5 x eps
+         \* of the larger side, plus the second-order curvature terms (< 10 % for |ok| <= 1/10)
+         [] name = "hogg_add" -> when(fwd /\ CConcordance(p), IF CRLe(b, COne) THEN 3500 ELSE 3500000)
          [] name = "da"       -> when(fwd, 4)
          [] name = "dl"       -> when(fwd, 4)
          [] name = "antisym"  -> when(phys /\ a # b, 8)          \* both orders
          [] name = "dv"       -> when(fwd, 16)
          [] name = "gl10"     -> when(fwd, 48)
          [] name = "gl10_coarse" -> when(fwd, 1)
+         [] name = "gl10x_flat"   -> when(fwd /\ p.flat, 10)
+         [] name = "gl10x_open"   -> when(fwd /\ ~p.flat /\ p.ok[1] > 0, 10)
+         [] name = "gl10x_closed" -> when(fwd /\ ~p.flat /\ p.ok[1] < 0 /\ CDlPositive(p, b), 10)
          [] name = "scinv"    -> when(fwd /\ lt, 500000)
          [] name = "scinv_form" -> when(fwd /\ lt /\ CPhysical(p, COne), 16)
-         [] name = "scinv_zero" -> when(RLe(b, a), 0)           \* source at or in front of the lens: exactly 0
+         [] name = "scinv_zero" -> when(CRLe(b, a), 0)           \* source at or in front of the lens: exactly 0
          [] name = "distmod"  -> when(fwd /\ b[1] > 0 /\ CDlPositive(p, b), 16)
-         [] name = "eds"      -> when(fwd /\ ~CIsNone(CEds(p, a, b)), IF RLe(b, COne) THEN 1000 ELSE 1000000)
+         [] name = "eds"      -> when(fwd /\ ~CIsNone(CEds(p, a, b)), IF CRLe(b, COne) THEN 1000 ELSE 1000000)
          [] OTHER -> CNA
 
-CNeeded(p, a, b) == SelectSeq([i \in 1..Len(CCatalogue) |-> CCatalogue[i].name], LAMBDA n : CTol(n, p, a, b) >= 0)
+CNames == [i \in 1..Len(CCatalogue) |-> CCatalogue[i].name]
+CById(n) == CCatalogue[CHOOSE i \in 1..Len(CCatalogue) : CCatalogue[i].name = n]
+\* what the harness has to evaluate: the demanded identities and their accepted alternatives
+CNeeded(p, a, b) ==
+    SelectSeq(CNames, LAMBDA n : CTol(n, p, a, b) >= 0 \/ \E i \in 1..Len(CCatalogue) : CCatalogue[i].alt = n /\ CTol(CCatalogue[i].name, p, a, b) >= 0)
 
 \* one recorded residual o = <<units, sign>>; units = -1 when a side is not a finite number
 CResidualOK(id, tol, o) ==
@@ -264,7 +339,8 @@ CFailScalar(r) ==
          IF r.der # CDerived(p, r.a, r.b) THEN {"harness_derived_mismatch"}
          ELSE {CCatalogue[i].name : i \in {j \in 1..Len(CCatalogue) :
                   LET id == CCatalogue[j]  tol == CTol(id.name, p, r.a, r.b)
-                  IN tol >= 0 /\ ~(id.name \in DOMAIN r.res /\ CResidualOK(id, tol, r.res[id.name]))}}
+                      good(n) == n \in DOMAIN r.res /\ CResidualOK(CById(n), tol, r.res[n])
+                  IN tol >= 0 /\ ~(good(id.name) \/ (id.alt # "" /\ good(id.alt)))}}
 
 \* ---------------------------------------------------------------------------------
 \* 6. argument-shape dispatch.  A shape is [kind, len]; kind "scalar" (len 0), "absent"
